@@ -22,6 +22,7 @@ type chainGen struct {
 	nonce   uint32
 	seq     int
 	lastCfg uint32
+	ts0     uint32 // genesis timestamp (0 = default 1000)
 }
 
 func (g *chainGen) randProg() []byte {
@@ -68,13 +69,16 @@ func (g *chainGen) genesisK(n int, net string, ev, twin bool, txs []txSpec, k in
 	// the network id decides the chain id inside transactions and headers: set it before hashing
 	setup()
 	setNet(net)
-	b := &blockSpec{name: "g", ts: 1000, txs: txs, hasCfg: true, cfg: cfg}
+	if g.ts0 == 0 {
+		g.ts0 = 1000
+	}
+	b := &blockSpec{name: "g", ts: g.ts0, txs: txs, hasCfg: true, cfg: cfg}
 	if _, err := b.materialize(false); err != nil {
 		panic(err)
 	}
 	g.set, g.net, g.lastCfg = cfg, net, 0
 	h, _ := parseHash(b.hash)
-	g.hashes, g.tss, g.names = []common.Uint256{h}, []uint32{1000}, []string{"g"}
+	g.hashes, g.tss, g.names = []common.Uint256{h}, []uint32{g.ts0}, []string{"g"}
 	bi := func(x bool) int {
 		if x {
 			return 1
@@ -91,7 +95,11 @@ func (g *chainGen) genesisK(n int, net string, ev, twin bool, txs []txSpec, k in
 func (g *chainGen) next(maxTx int) *blockSpec {
 	g.seq++
 	h := uint32(len(g.hashes))
-	b := &blockSpec{name: fmt.Sprintf("b%d", g.seq), height: h, prev: g.hashes[h-1], ts: g.tss[h-1] + 1 + uint32(g.r.Rng.Intn(3)),
+	ts := g.tss[h-1] + 1 + uint32(g.r.Rng.Intn(3))
+	if ts < g.tss[h-1] { // uint32 wrap at the very end of the range
+		ts = ^uint32(0)
+	}
+	b := &blockSpec{name: fmt.Sprintf("b%d", g.seq), height: h, prev: g.hashes[h-1], ts: ts,
 		root: refBlockRoot(g.hashes), txs: g.randTxs(maxTx), lastCfg: g.lastCfg}
 	g.signBy(b, g.set)
 	return b
@@ -264,6 +272,8 @@ func (f *growFam) Gen(r *hx.Run) {
 		if r.Rng.Chance(1, 4) {
 			net = "main"
 		}
+		// boundary-heavy genesis timestamps: the successor rule is a comparison of uint32 values
+		g.ts0 = []uint32{1000, 1000, 1, 1<<31 - 2, 1 << 31, 3000000000, 3000000000, 1<<32 - 60}[r.Rng.Intn(8)]
 		if !okRes(g.genesis(n, net, r.Rng.Bool(), false, g.randTxs(1))) {
 			continue
 		}
@@ -292,7 +302,8 @@ func (f *growFam) Gen(r *hx.Run) {
 			case x < 78:
 				b := g.next(2)
 				h := len(g.hashes)
-				muts := []string{"height+1", "stale-other", "unknown-parent", "parent-tip-1", "ts-equal", "ts-earlier", "root-flip", "root-short", "root-zero", "stateroot", "nosigs", "height+2"}
+				muts := []string{"height+1", "stale-other", "unknown-parent", "parent-tip-1", "ts-equal", "ts-earlier", "root-flip", "root-short", "root-zero", "stateroot", "nosigs", "height+2",
+					"ts-boundary", "ts-boundary", "ts-half-range"}
 				kind = muts[r.Rng.Intn(len(muts))]
 				p = path()
 				arg := ""
@@ -323,6 +334,12 @@ func (f *growFam) Gen(r *hx.Run) {
 					b.ts = g.tss[h-1]
 				case "ts-earlier":
 					b.ts = g.tss[h-1] - 1 - uint32(r.Rng.Intn(5))
+				case "ts-boundary":
+					// absolute boundary values of the uint32 range (earlier, equal or later than the tip)
+					b.ts = []uint32{0, 1, 1<<31 - 1, 1 << 31, 1<<31 + 1, 1<<32 - 2, 1<<32 - 1}[r.Rng.Intn(7)]
+				case "ts-half-range":
+					// half the uint32 range before the tip: a signed reading of the difference would call these later
+					b.ts = g.tss[h-1] - (1 << 31) + uint32(r.Rng.Intn(3)) - 1
 				case "root-flip":
 					b.root[r.Rng.Intn(32)] ^= byte(1 << uint(r.Rng.Intn(8)))
 				case "root-short":
@@ -342,12 +359,12 @@ func (f *growFam) Gen(r *hx.Run) {
 				if okRes(res) && strings.Contains(res, "tip="+b.hash) {
 					g.committed(b) // the ledger took a mutant: keep the generator in step (the oracle has reported it)
 				}
-			case x < 86:
+			case x < 82:
 				kind = "resubmit"
 				nm := g.names[r.Rng.Intn(len(g.names))]
 				p = path()
 				res = r.Do(p + " " + nm)
-			case x < 95:
+			case x < 90:
 				kind = "header-first"
 				b := g.next(2)
 				g.def(b)
@@ -368,6 +385,51 @@ func (f *growFam) Gen(r *hx.Run) {
 					if okRes(res) {
 						g.committed(&b2)
 					}
+				}
+			case x < 96:
+				// a proposer asks for block roots (with the tip, with a foreign predecessor, over several heights, from
+				// behind the ledger), then a block whose root was computed over the foreign predecessor and the honest
+				// block are submitted
+				kind = "root-query"
+				h := len(g.hashes)
+				tip := hexOf(g.hashes[h-1])
+				var xh common.Uint256
+				copy(xh[:], r.Rng.Bytes(32))
+				if h >= 2 && r.Rng.Bool() {
+					xh = g.hashes[h-2]
+				}
+				queries := []string{
+					fmt.Sprintf("root %d %s", h, hexOf(xh)),
+					fmt.Sprintf("root %d %s", h, tip),
+				}
+				if h >= 2 {
+					queries = append(queries, fmt.Sprintf("root %d %s,%s", h-1, hexOf(g.hashes[h-2]), hexOf(xh)),
+						fmt.Sprintf("root %d %s", h-1, hexOf(g.hashes[h-2])))
+				}
+				queries = append(queries, fmt.Sprintf("root %d %s,%s", h, tip, hexOf(xh)))
+				for _, i := range r.Rng.Perm(len(queries)) {
+					if r.Rng.Chance(3, 4) || i < 2 {
+						r.Do(queries[i])
+					}
+				}
+				mb := g.next(1)
+				mb.root = refBlockRoot(append(append([]common.Uint256{}, g.hashes[:h-1]...), xh))
+				g.def(mb)
+				p = path()
+				res = r.Do(p + " " + mb.name)
+				if okRes(res) && strings.Contains(res, "tip="+mb.hash) {
+					g.committed(mb)
+					break
+				}
+				r.Do(fmt.Sprintf("root %d %s", h, tip))
+				vb := g.next(2)
+				g.def(vb)
+				res = r.Do(p + " " + vb.name)
+				if okRes(res) {
+					g.committed(vb)
+				} else if v := strings.SplitN(res, " ", 2)[0]; v == "err:blockroot" || v == "err:notip" {
+					// (a refusal for another reason, e.g. no later timestamp exists after 2^32-1, is not about the queries)
+					r.Viol("C13:honest-successor-refused-after-root-query", fmt.Sprintf("after block-root queries at height %d the honest successor %s is refused: %s", h, vb.name, strings.SplitN(res, " ", 2)[0]))
 				}
 			default:
 				kind = "fork-at-tip"
